@@ -233,11 +233,11 @@ theorem mergeCore_empty (c t : Graph) (aid : String) (done : List String) (hn : 
   cases t with
   | mk tn te => simp [mergeCore, hn, he, Graph.ids, Graph.hasEdge]
 
-theorem merge_ok {c : Graph} {a : Adm} {g : Graph} (hc : c.Closed) (h : merge c a = (none, g)) :
+theorem merge_ok {c : Graph} {a : Adm} {g : Graph} (hc : c.Closed) (h : mergeN c a = (none, g)) :
     a.g.nodes ≠ [] ∧ (∀ n ∈ a.g.nodes, n.ldel.single = true ∧ n.cdel.single = true) ∧
     g = mergeCore c a.stamped a.id (common c a.g) true ∧
     (∀ i ∈ common c a.g, conflictAt c a.stamped i = false) := by
-  unfold merge mergeOrd at h
+  unfold mergeN mergeOrdN at h
   split at h
   · cases h
   · rename_i hne
@@ -259,13 +259,11 @@ theorem merge_ok {c : Graph} {a : Adm} {g : Graph} (hc : c.Closed) (h : merge c 
       · split at h
         · cases h
         · rename_i hfi
-          split at h
-          · cases h
-          · injection h with _ h
-            refine ⟨h.symm, ?_⟩
-            intro i hi
-            have := List.findIdx?_eq_none_iff.mp hfi i hi
-            simpa using this
+          injection h with _ h
+          refine ⟨h.symm, ?_⟩
+          intro i hi
+          have := List.findIdx?_eq_none_iff.mp hfi i hi
+          simpa using this
 
 
 theorem mem_common {c : Graph} {a : Graph} {i : String} : i ∈ common c a ↔ i ∈ c.ids ∧ i ∈ a.ids := by
@@ -357,7 +355,7 @@ theorem noconf_of (c : Graph) (a : Adm) (hcf : ∀ i ∈ common c a.g, conflictA
       simp only [conflictAt, hc, stamped_node?, ha, Option.map_some, conflict, stampT, Bool.or_eq_false_iff] at this
       simpa [Graph.ldelOf, Graph.cdelOf, hc, ha] using this
 
-theorem merge_step {c : Graph} {a : Adm} {g : Graph} (hc : c.Closed) (h : merge c a = (none, g)) :
+theorem merge_step {c : Graph} {a : Adm} {g : Graph} (hc : c.Closed) (h : mergeN c a = (none, g)) :
     MergeStep c a g := by
   obtain ⟨hne, hsingle, hg, hcf⟩ := merge_ok hc h
   subst hg
